@@ -8,6 +8,10 @@
 // amino-JSON of all objects); OwnerID recorded iff RefCount==1 and never escaped, and the owner holds a
 // reference; no dangling reference; escaped objects <-> oid->hash entries of the main store (with the current
 // hash); every object reachable from a package object unless kept by a reference cycle.
+//
+// Family s11 (shapes.AllC06 only; added after a seeded miss, see mutants/NOTES.md): in-place element shifts of stored
+// slices of pointers / maps / interface values through append and copy (remove idiom for every i, copy-shift with and
+// without clearing the stale tail slot, insert shift, truncation, append into the spare capacity left behind).
 package main
 
 import (
